@@ -214,7 +214,22 @@ func init() {
 			k := r.Intn(5)
 			for j := 0; j < k; j++ {
 				var q []byte
-				switch r.Intn(6) {
+				switch r.Intn(7) {
+				case 6: // a LARGE frame: a query padded with an EDNS padding option / plain bytes, at and around the sizes a
+					// "small buffer for queries" would pick (the length prefix may announce up to 65535 bytes)
+					n := r.Pick([]int{4095, 4096, 4097, 5000, 8192, 16384, 16385, 65535})
+					if r.Bool() {
+						q = r.Bytes(n)
+					} else {
+						base := r.sockQuery(-1)
+						base[11] = 1
+						pad := n - len(base) - 11 - 4
+						if pad < 0 {
+							pad = 0
+						}
+						q = append(base, packRR(rrSpec{name: []byte{0}, typ: 41, class: 4096, rdata: packOpts([]optSpec{{code: 12, data: make([]byte, pad)}})})...)
+					}
+					c.Stat("frame:large")
 				case 0: // an unparsable but long enough message
 					q = r.Bytes(15 + r.Intn(40))
 					c.Stat("frame:garbage")
@@ -272,6 +287,22 @@ func init() {
 		sem := make(chan struct{}, 12)
 		for i, l := range lines {
 			if strings.HasPrefix(l, "halfclose ") {
+				continue
+			}
+			if len(l) > 8000 {
+				// a stream with a large frame: alone and announced, so that a daemon that dies on it is reported with this case
+				f := strings.Fields(l)
+				var cuts []int
+				if f[2] != "-" {
+					for _, x := range strings.Split(f[2], ",") {
+						var k int
+						fmt.Sscanf(x, "%d", &k)
+						cuts = append(cuts, k)
+					}
+				}
+				wg.Wait()
+				c.Begin(l)
+				outs[i] = runTcpStream(srv.addr, unhx(f[1]), cuts)
 				continue
 			}
 			wg.Add(1)
